@@ -3,27 +3,29 @@
    wf_scn (so, by the generic theorems, it reports failure, leaks nothing, never double
    releases and is safe to destroy under EVERY fault function), and it behaves like the
    hand-written instance that the differential run compares with the implementation. *)
-From MV Require Import C18.Model C18.Proofs C18.Instances gen.Params_C18.
+From MV Require Import C18.Model C18.Proofs C18.Instances gen.Params_C18 C18.Coverage.
 
 Definition gtriple := (list stmt * list stmt * list stmt)%type.
 
 (* what the object owns after success is read off the generated program itself *)
 Definition gen_scn0 (t : gtriple) : scn :=
-  mkscn (fst (fst t)) (snd (fst t)) (snd t) [] true false true [] false.
+  mkscn (fst (fst t)) (snd (fst t)) (snd t) [] true false true [] true [].
 Definition gen_scn (t : gtriple) : scn :=
-  mkscn (fst (fst t)) (snd (fst t)) (snd t) (o_live (run_scn (gen_scn0 t) no_fault)) true false true [] false.
+  mkscn (fst (fst t)) (snd (fst t)) (snd t) (o_live (run_scn (gen_scn0 t) no_fault)) true false true [] true [].
 
 (* scenarios that must be present in the generated table: a scenario the translator drops or
    cannot handle is a broken obligation *)
 Definition gen_required : list nat :=
   [0; 1; 2; 4; 5; 6; 9; 10; 11; 12; 13; 14; 15; 16; 18; 21; 23; 24; 26; 28; 30; 31; 33; 37; 43; 47; 61; 77; 78;
-   201; 202; 203].
+   201; 202; 203; 300; 301].
 
 (* observable behaviour compared with the hand-written instance *)
 Definition obs_eqb (a b : outcome) : bool :=
   rc_eqb (o_rc a) (o_rc b) && Nat.eqb (o_att a) (o_att b)
   && Nat.eqb (length (o_live a)) (length (o_live b)) && Bool.eqb (o_bad a) (o_bad b)
-  && Nat.eqb (length (o_dlive a)) (length (o_dlive b)) && Bool.eqb (o_dbad a) (o_dbad b).
+  && Nat.eqb (length (o_dlive a)) (length (o_dlive b)) && Bool.eqb (o_dbad a) (o_dbad b)
+  && Bool.eqb (o_kept a) (o_kept b) && Bool.eqb (o_retry_ok a) (o_retry_ok b)
+  && Nat.eqb (length (o_rdlive a)) (length (o_rdlive b)) && Bool.eqb (o_rdbad a) (o_rdbad b).
 Definition agrees (g h : scn) : bool :=
   forallb (fun f => obs_eqb (run_scn g f) (run_scn h f)) single_runs.
 
@@ -78,4 +80,59 @@ Example generated_hash_table_init_is_nontrivial :
               o_att (run_scn (gen_scn t) no_fault) = 5 /\ length (o_live (run_scn (gen_scn t) no_fault)) = 5
   | None => False
   end.
+Proof. vm_compute. repeat split; reflexivity. Qed.
+
+(* ---------- coverage: every allocating entry point of the library is accounted for ---------- *)
+From Coq Require Import String.
+
+Definition smem (x : string) (l : list string) : bool := existsb (String.eqb x) l.
+Definition pmem (p : string * string) (l : list (string * string)) : bool :=
+  existsb (fun q => String.eqb (fst p) (fst q) && String.eqb (snd p) (snd q)) l.
+
+Definition entry_accounted (n : string) : bool :=
+  smem n driven_under_faults
+  || existsb (fun p => String.eqb (fst p) n && pmem p driven_reach && smem (snd p) driven_under_faults) reached_through
+  || smem n (map fst excluded).
+(* an exclusion / indirection is only allowed for a function that IS an allocating entry point and is NOT driven *)
+Definition exclusion_needed (n : string) : bool :=
+  smem n (map fst alloc_entry_points) && negb (smem n driven_under_faults).
+
+Definition coverage_ok : bool :=
+  match cov_errors with [] => true | _ => false end
+  && Nat.leb 1 cov_files
+  && forallb entry_accounted (map fst alloc_entry_points)
+  && forallb (fun n => smem n (map fst callbacks_driven)) (map fst alloc_callbacks)
+  && forallb exclusion_needed (map fst excluded ++ map fst reached_through)
+  && forallb (fun n => smem n (map fst alloc_callbacks)) (map fst callbacks_driven).
+
+Lemma coverage_holds : coverage_ok = true.
+Proof. vm_compute. reflexivity. Qed.
+
+Lemma smem_In x l : smem x l = true -> In x l.
+Proof.
+  unfold smem. intros H. apply existsb_exists in H. destruct H as [y [Hy E]].
+  apply String.eqb_eq in E. subst. exact Hy.
+Qed.
+
+(* read as a proposition *)
+Lemma entry_points_accounted : forall n,
+  In n (map fst alloc_entry_points) ->
+  In n driven_under_faults \/
+  (exists d, In (n, d) reached_through /\ In d driven_under_faults) \/
+  In n (map fst excluded).
+Proof.
+  intros n Hn. pose proof coverage_holds as C. unfold coverage_ok in C.
+  rewrite !andb_true_iff in C. destruct C as [[[[[_ _] C3] _] _] _].
+  rewrite forallb_forall in C3. apply C3 in Hn. unfold entry_accounted in Hn.
+  apply orb_prop in Hn. destruct Hn as [Hn|Hn]; [apply orb_prop in Hn; destruct Hn as [Hn|Hn]|].
+  - left. apply smem_In. exact Hn.
+  - right. left. apply existsb_exists in Hn. destruct Hn as [[a d] [Hp Hq]].
+    cbn [fst snd] in Hq. rewrite !andb_true_iff in Hq. destruct Hq as [[E _] D].
+    apply String.eqb_eq in E. subst a. exists d. split; [exact Hp|apply smem_In; exact D].
+  - right. right. apply smem_In. exact Hn.
+Qed.
+
+Example coverage_is_not_empty :
+  Nat.leb 60 (List.length alloc_entry_points) = true /\ Nat.leb 40 (List.length driven_under_faults) = true /\
+  smem "muggle_stack_push" driven_under_faults = true /\ smem "muggle_fast_flow_ctl_init" driven_under_faults = true.
 Proof. vm_compute. repeat split; reflexivity. Qed.
